@@ -19,6 +19,8 @@ pub use crate::writer::{ShmWrite, ShmWriter};
 pub mod common;
 mod reader;
 mod shm_header;
+#[cfg(clock_bound_verif)]
+pub mod verif_shim;
 mod writer;
 
 use errno::Errno;
